@@ -700,7 +700,50 @@ func (in *Interp) materialiseExternalGlobal(g *ssa.Global, c *Cell) {
 		c.v = in.sentinelError(g.Pkg.Pkg.Path() + "." + g.Name())
 		return
 	}
-	in.note("extglobal-zero:" + g.Pkg.Pkg.Path() + "." + g.Name())
+	name := g.Pkg.Pkg.Path() + "." + g.Name()
+	if b, ok := extByteGlobals[name]; ok {
+		// package-level byte slices of packages whose initialiser is not run (their values are constants)
+		arr := in.newArrayCell(types.Typ[types.Uint8], len(b), "global "+name)
+		for i, x := range b {
+			arr.kids[i].v = in.tb.Const(uint64(x), 8)
+		}
+		c.v = SliceV{arr: arr, off: 0, len: len(b), cap: len(b)}
+		in.note("extglobal-const:" + name)
+		return
+	}
+	if extFreshHandleGlobals[name] && c.agg && len(c.kids) == 1 {
+		// unique.Handle values compared by identity only (net/netip.z4, z6noz): a fresh distinct non-nil pointer
+		if pt, ok := c.kids[0].t.Underlying().(*types.Pointer); ok {
+			c.kids[0].v = Ptr{c: in.newCell(pt.Elem(), in.newObject(pt.Elem(), "global "+name))}
+			in.note("extglobal-handle:" + name)
+			return
+		}
+	}
+	in.note("extglobal-zero:" + name)
+}
+
+var extFreshHandleGlobals = map[string]bool{"net/netip.z4": true, "net/netip.z6noz": true}
+
+var v4p = []byte{0, 0, 0, 0, 0, 0, 0, 0, 0, 0, 0xff, 0xff}
+
+func v4(a, b, c, d byte) []byte { return append(append([]byte(nil), v4p...), a, b, c, d) }
+
+// values taken from the Go standard library source (net/ip.go)
+var extByteGlobals = map[string][]byte{
+	"net.v4InV6Prefix":              v4p,
+	"net.IPv4zero":                  v4(0, 0, 0, 0),
+	"net.IPv4bcast":                 v4(255, 255, 255, 255),
+	"net.IPv4allsys":                v4(224, 0, 0, 1),
+	"net.IPv4allrouter":             v4(224, 0, 0, 2),
+	"net.IPv6zero":                  make([]byte, 16),
+	"net.IPv6unspecified":           make([]byte, 16),
+	"net.IPv6loopback":              {0, 0, 0, 0, 0, 0, 0, 0, 0, 0, 0, 0, 0, 0, 0, 1},
+	"net.IPv6interfacelocalallnodes": {0xff, 0x01, 0, 0, 0, 0, 0, 0, 0, 0, 0, 0, 0, 0, 0, 0x01},
+	"net.IPv6linklocalallnodes":     {0xff, 0x02, 0, 0, 0, 0, 0, 0, 0, 0, 0, 0, 0, 0, 0, 0x01},
+	"net.IPv6linklocalallrouters":   {0xff, 0x02, 0, 0, 0, 0, 0, 0, 0, 0, 0, 0, 0, 0, 0, 0x02},
+	"net.classAMask":                {0xff, 0, 0, 0},
+	"net.classBMask":                {0xff, 0xff, 0, 0},
+	"net.classCMask":                {0xff, 0xff, 0xff, 0},
 }
 
 // sentinelError creates a unique error value for an un-modelled package-level error.
